@@ -25,6 +25,56 @@ def gen_focus(ctx, cls, depth=None, finite=False, classes=None):
     return REG[cls].gen(g)
 
 
+def _jsonable(x):
+    if isinstance(x, tuple):
+        return {"t": [_jsonable(y) for y in x]}
+    if isinstance(x, list):
+        return [_jsonable(y) for y in x]
+    if isinstance(x, dict):
+        return {"d": {k: _jsonable(v) for k, v in x.items()}}
+    if isinstance(x, float):
+        return {"f": x.hex()}
+    return x
+
+
+def _unjson(x):
+    if isinstance(x, dict):
+        if "t" in x:
+            return tuple(_unjson(y) for y in x["t"])
+        if "d" in x:
+            return {k: _unjson(v) for k, v in x["d"].items()}
+        if "f" in x:
+            return float.fromhex(x["f"])
+    if isinstance(x, list):
+        return [_unjson(y) for y in x]
+    return x
+
+
+def replay(ctx, payload):
+    """re-run a replay file's script on the current tree: implementation and model"""
+    from . import common
+    rp = payload.get("replay") or payload.get("first_disagreement") or {}
+    if "ast" not in rp:
+        print("replay: this file names broken proof obligations / has no script: %s" % payload.get("broken_proof_obligations"))
+        return 2
+    script = _unjson(rp["ast"])
+    impl = pat_impl.run_impl(script)
+    ok, _ = common.ensure_built()
+    model = common.run_driver("pat", "\n".join(["clear"] + pat_impl.model_lines(script)) + "\n")[1:] if ok else None
+    print("script:", pat_impl.model_lines(script))
+    print("impl  :", impl)
+    print("model :", model)
+    print("recorded impl :", rp.get("impl"))
+    mm = pat_suite.first_mismatch(impl, model) if model is not None else None
+    if mm or impl != rp.get("impl"):
+        print("differs: %s" % (mm,))
+    if mm:
+        print("VIOLATION property=%s replay=<replayed>" % ctx.prop)
+        return 1
+    print("replay: implementation and model agree on this script now")
+    return 0
+
+
 def report(ctx, prop, cid, script, impl, model, e, oracle_problem, sig_class):
     if "hang" in impl:
         ctx.violation("%s:hang:%s" % (prop, sig_class), "next() did not return within the time limit",
@@ -33,10 +83,10 @@ def report(ctx, prop, cid, script, impl, model, e, oracle_problem, sig_class):
     mm = pat_suite.first_mismatch(impl, model) if model is not None else None
     if oracle_problem:
         ctx.violation("%s:%s" % (prop, sig_class), oracle_problem,
-                      {"suite": "pat", "script": pat_suite.script_text(script), "impl": impl, "model": model})
+                      {"suite": "pat", "script": pat_suite.script_text(script), "ast": _jsonable(script), "impl": impl, "model": model})
     elif mm:
         ctx.disagreement("case %s [%s]: line %d impl %r vs model %r" % (cid, sig_class, mm[0], mm[1][:200], mm[2][:200]),
-                         {"suite": "pat", "script": pat_suite.script_text(script), "impl": impl, "model": model})
+                         {"suite": "pat", "script": pat_suite.script_text(script), "ast": _jsonable(script), "impl": impl, "model": model})
 
 
 def unmodelled_note(ctx, classes):
